@@ -98,15 +98,21 @@ func (ms *mapStruct) ptr(offset int64, l int32) ([]byte, error) {
 	//log.Printf("-> reading %d bytes from %d into buffer at offset=%d", readSize, readStart, readOffset)
 	for readSize > 0 {
 		n, err := ms.f.Read(ms.window[readOffset : readOffset+readSize])
-		if err != nil {
-			ms.err = err
-			// TODO: zero the buffer, file has changed mid-transfer
-			return nil, fmt.Errorf("file has changed mid-transfer")
-			break
-		}
 		ms.pFdOffset += int64(n)
 		readOffset += int64(n)
 		readSize -= int64(n)
+		if err != nil {
+			if err == io.EOF && ms.pFdOffset >= ms.fileSize {
+				// The window was grown to an aligned length which extends
+				// past the end of the file. This is not an error: zero the
+				// remainder of the window, like rsync/fileio.c:map_ptr.
+				clear(ms.window[readOffset : readOffset+readSize])
+				break
+			}
+			ms.err = err
+			// TODO: zero the buffer, file has changed mid-transfer
+			return nil, fmt.Errorf("file has changed mid-transfer")
+		}
 	}
 	return ms.window[alignFudge : alignFudge+len], nil
 }
